@@ -39,8 +39,8 @@ inline Op gen_signal(Tape & t, int id, int src, const DType & dt, int shape) {
             o.eps = t.coin() ? 0 : (uint32_t) t.range(1, 200);
             o.sumdf = t.coin() ? 0 : (uint32_t) t.range(1, 50);
     }
-    o.annodf = (uint32_t) t.pick(std::vector<uint32_t>{0, 2, 3, 10});
-    o.utcdf = (uint32_t) t.pick(std::vector<uint32_t>{0, 2, 3, 10});
+    o.annodf = (uint32_t) t.pick(std::vector<uint32_t>{0, 2, 12, 10});
+    o.utcdf = (uint32_t) t.pick(std::vector<uint32_t>{0, 2, 12, 10});
     o.name = gen_name(t, "sig"); o.units = gen_name(t, "V");
     return o;
 }
